@@ -58,6 +58,31 @@ func c08(r *rt.Run) {
 	}
 	r.SetBudget(200*time.Second, 1800*time.Second)
 	U := gen.Universe(true)
+	// containers that agree on their first component and differ only in a later one, over leaves whose hashes differ
+	// only in the high bits (numbers 2^52..2^63 apart, a float and its negation, 0.0 and -0.0): combining hashes shifts
+	// and drops high bits, so many of these containers have equal hashes — Equals must still tell them apart
+	{
+		one := ast.Number(1)
+		ka, kx, ky := name2("/a"), name2("/x"), name2("/y")
+		W := []ast.Constant{ast.Number(1), ast.Number(2), ast.Number(1 + 1<<52), ast.Number(1 + 1<<53), ast.Number(1 + 1<<54), ast.Number(1 + 1<<56), ast.Number(1 + 1<<60), ast.Number(1 + 1<<62), ast.Number(math.MinInt64 + 1),
+			ast.Float64(1.5), ast.Float64(-1.5), ast.Float64(13.4), ast.Float64(-13.4), ast.Float64(0), ast.Float64(math.Copysign(0, -1)), ast.Float64(52.5),
+			ast.Time(1), ast.Time(1 + 1<<54), ast.Duration(1), ast.Duration(1 + 1<<54), ast.String("a"), ast.String("b")}
+		for wi, w := range W {
+			w := w
+			how := fmt.Sprintf("later-component leaf %d", wi)
+			add := func(c ast.Constant, shape string) { U = append(U, gen.Named{C: c, How: shape + " over " + how}) }
+			add(*ast.Struct(map[*ast.Constant]*ast.Constant{&ka: &one, &kx: &w}), "struct {/a:1,/x:w}")
+			add(*ast.Struct(map[*ast.Constant]*ast.Constant{&ka: &one, &kx: &w, &ky: &one}), "struct {/a:1,/x:w,/y:1}")
+			add(*ast.Struct(map[*ast.Constant]*ast.Constant{&kx: &one, &ka: &w}), "struct {/x:1,/a:w}")
+			add(*ast.Map(map[*ast.Constant]*ast.Constant{&ka: &one, &kx: &w}), "map [/a:1,/x:w]")
+			add(*ast.Map(map[*ast.Constant]*ast.Constant{&one: &one, &w: &one}), "map [1:1,w:1]")
+			add(ast.List([]ast.Constant{one, w}), "list [1,w]")
+			add(ast.List([]ast.Constant{one, w, one}), "list [1,w,1]")
+			add(ast.Pair(&one, &w), "pair(1,w)")
+			inner := ast.Pair(&w, &one)
+			add(ast.Pair(&one, &inner), "pair(1,pair(w,1))")
+		}
+	}
 	n := len(U)
 	keys := make([]string, n)
 	strs := make([]string, n)
@@ -173,7 +198,7 @@ func c08(r *rt.Run) {
 	// the library uses printed constants as dictionary keys for group_by: groups must be the Equals-classes
 	// (every ordered pair of a universe of mutually confusable constants as keys of 4 aggregating rules)
 	c02KeyFamily(r)
-	r.Finish("universe of constants built through the public constructors (leaves of every kind; one level of pair/list/map/struct over 14 leaves; a second level over 8 values); every ordered pair: Equals vs structural truth, symmetry, Equals=>Hash/String equal, String equal=>Equals (valid names, finite floats), same for atoms p(c), q(c,d); printed constants as group_by keys: groups are the Equals-classes for every ordered pair of 44 confusable constants; " +
+	r.Finish("universe of constants built through the public constructors (leaves of every kind; one level of pair/list/map/struct over 14 leaves; a second level over 8 values; 9 container shapes that agree on the first component over 22 later-component leaves whose hashes differ only in the high bits); every ordered pair: Equals vs structural truth, symmetry, Equals=>Hash/String equal, String equal=>Equals (valid names, finite floats), same for atoms p(c), q(c,d); printed constants as group_by keys: groups are the Equals-classes for every ordered pair of 44 confusable constants; " +
 		"triples over a 150-element sub-universe (transitivity); maps/structs from every argument order; non-trivial = every constant of the universe (distinct structural keys counted in states)")
 }
 
